@@ -8,3 +8,41 @@ mod simple_avx;
 
 #[cfg(target_arch = "aarch64")]
 mod simple_neon;
+
+/// Direct access to every kernel, whatever the runtime dispatch would pick (verification hook).
+#[cfg(arroy_verif)]
+#[allow(missing_docs)]
+pub mod verif_kernels {
+    use crate::unaligned_vector::UnalignedVector;
+
+    pub fn dispatched_euclid(u: &UnalignedVector<f32>, v: &UnalignedVector<f32>) -> f32 {
+        super::simple::euclidean_distance(u, v)
+    }
+    pub fn dispatched_dot(u: &UnalignedVector<f32>, v: &UnalignedVector<f32>) -> f32 {
+        super::simple::dot_product(u, v)
+    }
+    pub fn plain_euclid(u: &UnalignedVector<f32>, v: &UnalignedVector<f32>) -> f32 {
+        super::simple::euclidean_distance_non_optimized(u, v)
+    }
+    pub fn plain_dot(u: &UnalignedVector<f32>, v: &UnalignedVector<f32>) -> f32 {
+        super::simple::dot_product_non_optimized(u, v)
+    }
+    #[cfg(target_arch = "x86_64")]
+    pub fn sse_euclid(u: &UnalignedVector<f32>, v: &UnalignedVector<f32>) -> Option<f32> {
+        is_x86_feature_detected!("sse").then(|| unsafe { super::simple_sse::euclid_similarity_sse(u, v) })
+    }
+    #[cfg(target_arch = "x86_64")]
+    pub fn sse_dot(u: &UnalignedVector<f32>, v: &UnalignedVector<f32>) -> Option<f32> {
+        is_x86_feature_detected!("sse").then(|| unsafe { super::simple_sse::dot_similarity_sse(u, v) })
+    }
+    #[cfg(target_arch = "x86_64")]
+    pub fn avx_euclid(u: &UnalignedVector<f32>, v: &UnalignedVector<f32>) -> Option<f32> {
+        (is_x86_feature_detected!("avx") && is_x86_feature_detected!("fma"))
+            .then(|| unsafe { super::simple_avx::euclid_similarity_avx(u, v) })
+    }
+    #[cfg(target_arch = "x86_64")]
+    pub fn avx_dot(u: &UnalignedVector<f32>, v: &UnalignedVector<f32>) -> Option<f32> {
+        (is_x86_feature_detected!("avx") && is_x86_feature_detected!("fma"))
+            .then(|| unsafe { super::simple_avx::dot_similarity_avx(u, v) })
+    }
+}
